@@ -337,17 +337,19 @@ func TestVerifC14RHP2(t *testing.T) {
 		}
 		rng := verifCaseRand(id)
 		nr := []int{3, 3, 3, 2, 4, 1, 0}[rng.Intn(7)]
-		if id < 9 {
+		if id < 13 {
 			nr = 3
 		}
 		h.newContract(id, nr)
 		before, roots := state()
 		nsec := uint64(len(roots))
 		kind := rng.Intn(10)
-		if id < 9 {
+		if id < 13 {
 			// directed: append, update+proof, empty roots range, wrapping roots range, full
 			// roots range, wrapping read section, last leaf, zero-length renter key, renewal
-			// with maximal filesize and window end
+			// with maximal filesize and window end; 109-112: a fully paid update action without
+			// proof whose offset+length wraps modulo 2^64 (two sizes), ends exactly at the sector
+			// end, and is empty at the sector end
 			kind = 100 + id
 		}
 		em.BeginCase(id, fmt.Sprintf("rhp2 session, kind %d, contract has %d sectors", kind, nsec))
@@ -561,7 +563,7 @@ func TestVerifC14RHP2(t *testing.T) {
 		default:
 			proof := rng.Intn(2) == 0
 			nact := 1 + rng.Intn(3)
-			if kind == 100 {
+			if kind == 100 || kind >= 109 {
 				nact = 1
 			}
 			var acts []rhp2.RPCWriteAction
@@ -582,6 +584,9 @@ func TestVerifC14RHP2(t *testing.T) {
 				case kind == 101:
 					r = 8
 					proof = true
+				case kind >= 109:
+					r = 8
+					proof = false
 				}
 				switch {
 				case r < 2 && appends == 0: // append (at most one 4 MiB payload per request)
@@ -619,8 +624,17 @@ func TestVerifC14RHP2(t *testing.T) {
 					if rng.Intn(2) == 0 && cur > 0 {
 						idx, off = uint64(rng.Intn(int(cur))), 64*uint64(rng.Intn(8))
 					}
-					if kind == 101 {
+					switch kind {
+					case 101:
 						idx, off, dl = 0, 0, 64
+					case 109:
+						idx, off, dl = 0, ^uint64(0)-63, 64
+					case 110:
+						idx, off, dl = 1, ^uint64(0)-127, 128
+					case 111:
+						idx, off, dl = 0, rhp2.SectorSize-64, 64
+					case 112:
+						idx, off, dl = 2, rhp2.SectorSize, 0
 					}
 					data := make([]byte, dl)
 					rng.Read(data)
@@ -637,11 +651,11 @@ func TestVerifC14RHP2(t *testing.T) {
 			})
 			total, coll := cost.Total()
 			payOk := cerr == nil
-			if payOk && rng.Intn(8) == 0 && !total.IsZero() {
+			if payOk && rng.Intn(8) == 0 && !total.IsZero() && kind < 100 {
 				total = total.Sub(types.NewCurrency64(1))
 				payOk = false
 			}
-			sigOk := rng.Intn(8) != 0
+			sigOk := rng.Intn(8) != 0 || kind >= 100
 			// which sector an update reads is known only while the actions are applied: follow them
 			sim := append([]types.Hash256(nil), roots...)
 			for k, a := range acts {
